@@ -188,6 +188,29 @@ def polarity(ctx, res):
                key + ":restricted-graph", mod.loc(c),
                "trait_added maintainer must hook a graph restricted to the "
                "added trait name (event.new) with the original children")
+    # ... on *every* path: each definition of the graph handed over is the
+    # restricted construction (the unrestricted downstream graph would hook
+    # the whole pattern again - and re-register this very maintainer - each
+    # time a trait is added)
+    gv = kws.get("graph")
+    defs_g = [gv] if not isinstance(gv, ast.Name) else [
+        a.value for a in ast.walk(fn) if isinstance(a, ast.Assign)
+        and any(isinstance(t, ast.Name) and t.id == gv.id for t in a.targets)]
+    def _restricted(e):
+        if not (isinstance(e, ast.Call) and norm(e.func).endswith("ObserverGraph")):
+            return False
+        kw_ = {k.arg: k.value for k in e.keywords}
+        nd = kw_.get("node", e.args[0] if e.args else None)
+        return isinstance(nd, ast.Call) and "Restricted" in norm(nd.func) \
+            and "event.new" in norm(nd)
+    res.oblige(bool(defs_g) and all(_restricted(d) for d in defs_g),
+               key + ":restricted-always", mod.loc(c),
+               "on some path the trait_added maintainer hooks a graph that "
+               "is not restricted to the added name "
+               f"({[norm(d)[:40] for d in defs_g if not _restricted(d)][:1]})"
+               ": the unrestricted pattern matches again, so a second, equal "
+               "maintainer is added every time the event fires and the "
+               "registration can no longer be removed exactly")
     _check_forwarding(res, mod, fn, c, key)
     res.floor(9)
 
@@ -205,7 +228,7 @@ def _yields(fn):
     return out
 
 
-@rule("C08.projection", ["C08", "C12"],
+@rule("C08.projection", ["C08", "C12", "C09"],
       "what an observer hooks at registration (iter_objects) is the same "
       "projection its maintainer applies to added/removed items")
 def projection(ctx, res):
@@ -251,6 +274,33 @@ def projection(ctx, res):
                        f"{cname}:maintainer:{side}", mod.loc(fn),
                        f"maintainer iterates {iters}; registration hooks "
                        f"`{objp + suffix}`, so it must walk `{want}`")
+    # the registration walk visits the next objects *with multiplicity*,
+    # exactly as iter_objects yields them: the maintainers count per
+    # occurrence (an object that is in a list twice is hooked twice), so a
+    # walk that visits each distinct object once makes the counts drift
+    rel_o = OBS + "_observe.py"
+    mod_o = repo.module(rel_o)
+    walk = repo.inlined(rel_o, "_AddOrRemoveNotifier._add_or_remove_children_notifiers")
+    from ..pyfacts import expand_locals as _xl2
+    loops = [l for l in ast.walk(walk) if isinstance(l, ast.For)]
+    src = None
+    for l in loops:
+        it = _xl2(walk, l.iter)
+        if "iter_objects(" in norm(it):
+            src = (l, it)
+    res.instance("_add_or_remove_children_notifiers", mod_o.loc(walk),
+                 iterates=norm(src[1])[:80] if src else None)
+    ok = src is not None and isinstance(src[1], ast.Call) \
+        and norm(src[1].func).endswith(".iter_objects")
+    res.oblige(ok, "_observe.py:children-walk:multiplicity",
+               mod_o.loc(src[0]) if src else mod_o.loc(walk),
+               f"the registration walk iterates "
+               f"`{norm(src[1])[:70] if src else '?'}` instead of the objects "
+               f"iter_objects() yields one by one: duplicates are collapsed "
+               f"(or the walk is skipped), while the item maintainers hook "
+               f"and unhook per occurrence - removing one of two occurrences "
+               f"then drops the only hook of an object that is still "
+               f"reachable")
     # trait observers: UNOBSERVABLE filter at hook-up and in the maintainer
     mod = repo.module(HTH)
     fn = repo.inlined(HTH, "iter_objects")
@@ -1018,7 +1068,7 @@ def _self_fields(fn, selfn="self"):
             and not n.attr.startswith("__")}
 
 
-@rule("C09.identity", ["C09", "C15"],
+@rule("C09.identity", ["C09", "C15", "C08"],
       "for every observer/filter/graph/expression class the fields set in "
       "__init__ are exactly the fields compared in __eq__ and hashed in "
       "__hash__ (equal spellings give equal registrations)")
@@ -1059,8 +1109,32 @@ def identity(ctx, res):
                            mod.loc(ms["__eq__"]),
                            f"{cls.name}: __init__ sets {sorted(init_fields)} "
                            f"but __eq__ compares {sorted(eq_fields)}")
-            # other's fields mirror self's
+            # a field is compared whole, not through a projection of its
+            # elements: `{c.node for c in self.children}` makes graphs that
+            # differ two levels down compare equal (maintainers of distinct
+            # expressions are then confused on removal)
             eqf = ms["__eq__"]
+            selfn_ = eqf.args.args[0].arg
+            projs = []
+            for comp in ast.walk(eqf):
+                if isinstance(comp, (ast.SetComp, ast.ListComp, ast.DictComp,
+                                     ast.GeneratorExp)):
+                    for gen in comp.generators:
+                        if norm(gen.iter).startswith(selfn_ + ".") \
+                                and isinstance(gen.target, ast.Name):
+                            elt = comp.elt if not isinstance(comp, ast.DictComp) \
+                                else comp.key
+                            if not (isinstance(elt, ast.Name)
+                                    and elt.id == gen.target.id):
+                                projs.append(comp)
+            res.oblige(not projs, key + ":eq-projection",
+                       mod.loc(projs[0]) if projs else mod.loc(eqf),
+                       f"{cls.name}.__eq__ compares "
+                       f"`{norm(projs[0])[:60] if projs else ''}`, a "
+                       f"projection of the elements of a field, not the "
+                       f"field: objects that differ below that projection "
+                       f"compare equal while __hash__ tells them apart")
+            # other's fields mirror self's
             if len(eqf.args.args) >= 2:
                 on = eqf.args.args[1].arg
                 other_fields = _self_fields(eqf, on)
